@@ -238,7 +238,7 @@ def check(run: common.Run):
     modules = [m for m in dict.fromkeys(modules) if _parses(m) and not _redefines_class(m)]
 
     # surface reference vs CPython execution; safe_preserve vs the implementation's set
-    scases, pcases = [], []
+    scases, pcases, capture_errors = [], [], []
     for src in modules:
         try:
             top, mem = exec_surface(src)
@@ -250,6 +250,8 @@ def check(run: common.Run):
             impl = capture_preserve(mods, src, P0)
             if impl is None:
                 hist["preserve:not-captured"] += 1
+                if src.strip():     # a valid non-empty module always reaches the safe block and the first pass
+                    capture_errors.append(("preserve-not-captured", src, P0))
                 continue
             pcases.append((f"({gnames(P0)}, {k10.t_module(src)}, {gnames(impl)})", ("preserve", src, P0, sorted(impl))))
             hist["preserve"] += 1
@@ -261,7 +263,7 @@ def check(run: common.Run):
     files += f; shards += s
 
     # ---- (c) the seven rules: refinement on every module x preserve set, exact on the trigger families
-    rcases = []
+    rcases, rule_errors = [], []
     for idx, src in enumerate(modules):
         exhaustive_part = idx < n_exh
         psets = k10.preserve_sets(src, None if exhaustive_part else rnd, single=idx < len(pool), quick=quick)
@@ -273,9 +275,13 @@ def check(run: common.Run):
                     out = k10.run_rule(mods, rule, src, P)
                 except Exception as e:  # noqa
                     hist[f"{rule}:raised:{type(e).__name__}"] += 1
-                    continue
+                    if exhaustive_part:      # the model's rules are total: a raise on the fixed domain is a
+                        rule_errors.append(("rule-raised", rule, sorted(P), src, f"{type(e).__name__}: {e}"[:200]))
+                    continue                 # disagreement (seed-independent, quiet on the unchanged tree)
                 if not _parses(out):
                     hist[f"{rule}:invalid-output"] += 1
+                    if exhaustive_part:
+                        rule_errors.append(("rule-invalid-output", rule, sorted(P), src, out[:300]))
                     continue
                 changed = out != src
                 hist[f"{rule}:{'changed' if changed else 'same'}"] += 1
@@ -289,6 +295,7 @@ def check(run: common.Run):
             out = k10.run_rule(mods, rule, src, P)
         except Exception as e:  # noqa
             hist[f"{rule}:raised:{type(e).__name__}"] += 1
+            rule_errors.append(("rule-raised", rule, sorted(P), src, f"{type(e).__name__}: {e}"[:200]))
             continue
         hist[f"{rule}:exact"] += 1
         if out != src:
@@ -298,7 +305,7 @@ def check(run: common.Run):
     files += f; shards += s
 
     results = common.run_case_files(files)
-    disagreements = []
+    disagreements = list(capture_errors[:3]) + list(rule_errors[:3])
     for p, shard in zip(files, shards):
         rc, out = results[p]
         idx = common.parse_nat_list(out) if rc == 0 else None
@@ -479,6 +486,13 @@ def exact_family():
            "async def dupD():\n    return 1 + 2\n")
     for P in (["dupA"], ["dupB"], ["dupA", "dupC"], ["dupC"], ["dupA", "dupB", "dupC"]):
         out.append(("RDuplicate*", src, P))
+    # move_staticmethod_static_scope: every guard key form, also a dotted key of ANOTHER class (its last
+    # component protects the method name in every class: attributes_to_preserve)
+    src = ("x = 1\nclass Holder:\n    @staticmethod\n    def statFn():\n        return 1\n"
+           "    @staticmethod\n    def otherStat():\n        return 2\nprint(Holder.statFn(), Holder.otherStat())\n")
+    for P in ([], ["Holder"], ["statFn"], ["Holder.statFn"], ["Elsewhere.statFn"], ["Elsewhere.otherStat", "statFn"],
+              ["Holder.otherStat"], ["x"], ["Elsewhere.Holder"]):
+        out.append(("RMoveStatic", src, P))
     # delete_pointless_statements: `_`
     for s in UNDERSCORE_FAMILY[:4]:
         out.append(("RPointless", s, []))
